@@ -52,6 +52,7 @@ def violations_of(prop, root):
     res = report.Results(prop, 'quick')
     try:
         mod.run(P, res, 'quick')
+        res.raise_deferred()
     except AnalysisError:
         if not any(o.status == 'violated' for o in res.obs):
             raise
